@@ -9,6 +9,9 @@ import time
 import core
 
 
+OMIT = object()
+
+
 class Session:
     def __init__(self, tmpdir, init=True, workspace=None):
         env = dict(os.environ)
@@ -83,7 +86,10 @@ class Session:
         if rid is None:
             rid = self.next_id
             self.next_id += 1
-        self.send({"jsonrpc": "2.0", "id": rid, "method": method, "params": params})
+        msg = {"jsonrpc": "2.0", "id": rid, "method": method, "params": params}
+        if params is OMIT:
+            del msg["params"]
+        self.send(msg)
         return rid
 
     def notify(self, method, params):
@@ -130,11 +136,11 @@ class Session:
                 return out
             out.append(m)
 
-    def shutdown(self, timeout=10.0):
+    def shutdown(self, timeout=10.0, params=None):
         """shutdown + exit; returns (shutdown response, exit status or None on watchdog)."""
         resp = None
         if self.alive:
-            rid = self.request("shutdown", None)
+            rid = self.request("shutdown", params)
             resp, _ = self.wait_response(rid, timeout)
             self.notify("exit", None)
         try:
